@@ -13,22 +13,26 @@ pub struct ChildSpec {
     pub fail: bool,
     pub script: Vec<Step>,
     pub omega: bool,
+    pub wake_on_end: bool,
 }
 impl ChildSpec {
     pub fn fut(mode: Mode) -> Self {
-        ChildSpec { mode, fail: false, script: vec![], omega: false }
+        ChildSpec { mode, fail: false, script: vec![], omega: false, wake_on_end: false }
     }
     pub fn failing(mode: Mode) -> Self {
-        ChildSpec { mode, fail: true, script: vec![], omega: false }
+        ChildSpec { mode, fail: true, script: vec![], omega: false, wake_on_end: false }
     }
     pub fn stream(s: &str) -> Self {
         let omega = s == "w";
+        // a trailing '!' = the stream wakes itself in the poll in which it returns None
+        let wake_on_end = s.ends_with('!');
+        let s = s.trim_end_matches('!');
         let script = if omega {
             vec![]
         } else {
             s.chars().map(|c| if c == 'I' { Step::Item } else { Step::Pend }).collect()
         };
-        ChildSpec { mode: Mode::Stream, fail: false, script, omega }
+        ChildSpec { mode: Mode::Stream, fail: false, script, omega, wake_on_end }
     }
     pub fn render(&self) -> String {
         if self.mode == Mode::Stream {
@@ -36,7 +40,7 @@ impl ChildSpec {
                 "Iω".into()
             } else {
                 let s: String = self.script.iter().map(|s| if *s == Step::Item { 'I' } else { 'P' }).collect();
-                format!("{}E", s)
+                format!("{}E{}", s, if self.wake_on_end { "!" } else { "" })
             }
         } else if self.fail {
             format!("{:?}!Err", self.mode)
@@ -397,6 +401,7 @@ impl<'a> Run<'a> {
             c.fail = spec.fail;
             c.script = spec.script.clone();
             c.omega = spec.omega;
+            c.wake_on_end = spec.wake_on_end;
             c.relay_target = tgt.unwrap_or(id);
             id
         })
